@@ -419,6 +419,11 @@ class _Session:
             return
         if self.injected is None:
             if how == "raised":
+                import urwid  # noqa: PLC0415
+
+                if isinstance(exc, urwid.ExitMainLoop):
+                    self.violate("C12.3", "ExitMainLoop-propagated-out-of-run", "the session's own quit")
+                    return
                 if core.raised_in_harness(exc):
                     raise core.HarnessError(f"harness exception inside run(): {core.format_exc(exc)}") from exc
                 self.violate("C12.3", f"run-raised-uninjected:{core.exc_signature(exc)}", core.format_exc(exc))
